@@ -2,7 +2,9 @@
 import collections
 
 PROP = "C05"
-LEAN_MODS = ["Cte.Props.C05"]
+LEAN_MODS = ["Cte.Props.C05", "Cte.Props.C05Src"]
+GENERATED_OBLIGATIONS = ["Cte/Gen/LockSites.lean regenerated from the sources of hulc, bemodel, climate, hulc2model (statics, lock sites, lock programs; "
+                         "repo_shared_state, repo_no_guard_writes, repo_lock_progs_wf, indicatorsProg_matches_source re-checked)"]
 HARNESS = "c05"
 N = {"quick": 40, "thorough": 600}
 USES_DRIVER = False
@@ -13,10 +15,17 @@ RULE = ("every shipped project (+ legacy files; all 56 in thorough) converted tw
         "forwards, again, on 16 threads, and in a fresh process in reverse order; non-trivial = the project converts / the model computes; "
         "distinct = distinct label")
 ASSUMPTIONS = ["reference models are compared with the converter output as JSON values (a float printed as 1e+30 or 1e30 is the same number)",
-               "that the Rust code's locking matches the machine's programs is read from the source and validated behaviourally (results under "
-               "threads), not by trace inclusion"]
+               "the machine's programs are tied to the Rust code by a syntactic translator (statics, .lock() sites, guard extents), which fails closed on a "
+               "lock it cannot attribute; interior mutability hidden in a dependency, and the order of the two locking calls inside compute(), are "
+               "validated behaviourally (results under threads), not by trace inclusion"]
 TRUSTED = ["modelled: Cte/Model/Process.lean (tables never written, one lock at a time, poisoning); results are compared through a 64-bit hash of the JSON text"]
 _stats = collections.Counter()
+
+
+def generate(rundir, tier):
+    import gen_lock_sites
+    probs, _, _ = gen_lock_sites.main()
+    return probs
 
 
 def compare(case, out):
